@@ -191,20 +191,21 @@ int main(int argc, char **argv)
 		 * position 0 and around the run */
 		static const uint8_t flags[6] = { 0xFF, 0x00, 0x0F, 0xF0, 0xAA, 0x55 };
 		static ref_cmd c[64];
-		unsigned L1, kr, fi, ci;
+		unsigned L1, kr, fi, ci, mx;
 		for (L1 = 3; L1 <= 18; ++L1)
 		for (kr = 0; kr < 3; ++kr)
 		for (fi = 0; fi < 6; ++fi)
+		for (mx = 0; mx < 2; ++mx)                  /* mx: the copies of the run have the maximal length (a run of eight gives 144 bytes) */
 		for (ci = 0; ci < 6; ++ci) {
 			static const unsigned reads[6] = { 0, 1, 4095, 4094, 7, 4089 };
 			int n = 0, b;
 			unsigned v = 0x30;
-			if (!vf_case("-lz5- copy of %u + 7 literals, %u runs of 8 literals, a run with flags %02x, then a copy from ring position %u", L1, kr, flags[fi], reads[ci])) continue;
+			if (!vf_case("-lz5- copy of %u + 7 literals, %u runs of 8 literals, a run with flags %02x (%s copies), then a copy from ring position %u", L1, kr, flags[fi], mx ? "18-byte" : "short", reads[ci])) continue;
 			c[n].copy = 1; c[n].value = 100; c[n].len = L1; ++n;
 			for (b = 0; b < 7 + 8 * (int) kr; ++b) { c[n].copy = 0; c[n].value = v++ & 0xFF; c[n].len = 1; ++n; }
 			for (b = 0; b < 8; ++b) {
 				if (flags[fi] & (1u << b)) { c[n].copy = 0; c[n].value = (0xC0 + b) & 0xFF; c[n].len = 1; }
-				else { c[n].copy = 1; c[n].value = (4070 + 3 * (unsigned) b) % 4096; c[n].len = 3 + (unsigned) b % 4; }
+				else { c[n].copy = 1; c[n].value = (4070 + 3 * (unsigned) b) % 4096; c[n].len = mx ? 18 : 3 + (unsigned) b % 4; }
 				++n;
 			}
 			c[n].copy = 1; c[n].value = reads[ci]; c[n].len = 9; ++n;
